@@ -542,7 +542,8 @@ pub fn build_query(q: &Q, f: &QFields) -> Result<Box<dyn Query>, Failure> {
             }
         }
         Q::Regex(i) => Box::new(RegexQuery::from_pattern(REGEXES[*i as usize], f.body).or_fail("regex_query_rejected")?),
-        Q::Boost(q, b) => Box::new(BoostQuery::new(build_query(q, f)?, *b as f32 * 0.5)),
+        // (b >= 200: a negative boost, -0.5 * (b - 199): demotion)
+        Q::Boost(q, b) => Box::new(BoostQuery::new(build_query(q, f)?, if *b >= 200 { -0.5 * (*b - 199) as f32 } else { *b as f32 * 0.5 })),
         Q::Const(q, b) => Box::new(ConstScoreQuery::new(build_query(q, f)?, *b as f32 * 0.75)),
         Q::DisMax(qs, t) => {
             let subs: Result<Vec<Box<dyn Query>>, Failure> = qs.iter().map(|q| build_query(q, f)).collect();
